@@ -275,8 +275,13 @@ func (e *Eng) callModsG(fn *ssa.Function, c *ssa.CallCommon, m map[string]bool) 
 
 func (e *Eng) callMods(fn *ssa.Function, c *ssa.CallCommon, m map[string]bool) {
 	// an `any` argument that boxes a pointer (decoders): what the pointer designates may be written
+	// (not by the modelled btree, which only compares its items through their Less method)
+	keepsArgs := false
+	if f := c.StaticCallee(); f != nil && strings.HasPrefix(fnKey(f), btPrefix) {
+		keepsArgs = true
+	}
 	for _, a := range c.Args {
-		if mi, ok := a.(*ssa.MakeInterface); ok {
+		if mi, ok := a.(*ssa.MakeInterface); ok && !keepsArgs {
 			if derefType(mi.X.Type()) != nil {
 				if _, isAddr := mi.X.(*ssa.IndexAddr); isAddr {
 					e.addrMods(mi.X, m)
